@@ -2,6 +2,7 @@ package server
 
 import (
 	"math/rand"
+	"net/http"
 	"os"
 	"strconv"
 	"sync"
@@ -77,5 +78,75 @@ func TestVerifC09Race(t *testing.T) {
 		}
 		lb.lock.Unlock()
 		out.emit(map[string]any{"round": round, "healthy_targets": want, "rotation": got})
+	}
+}
+
+// TestVerifC09ClaimRace: many requests claim a target of one balancer at the
+// same time (real scheduler).  Whatever the interleaving, the claims are handed
+// out in strict rotation: with k healthy targets and a total that is a multiple
+// of k, every target is claimed exactly total/k times.
+func TestVerifC09ClaimRace(t *testing.T) {
+	if os.Getenv("VERIF_OUT") == "" {
+		t.Skip("VERIF_OUT not set")
+	}
+	rounds, _ := strconv.Atoi(os.Getenv("VERIF_ROUNDS"))
+	if rounds == 0 {
+		rounds = 20
+	}
+	out := verifOpenOut(t)
+	defer out.close()
+	for round := 0; round < rounds; round++ {
+		k := 2 + round%4
+		workers, per := 12, 600*k
+		names := []string{}
+		for i := 0; i < k; i++ {
+			names = append(names, "tc"+strconv.Itoa(i)+":80")
+		}
+		opts := TargetOptions{HealthCheckConfig: HealthCheckConfig{Path: "/up", Interval: 1 << 40, Timeout: 1 << 30}}
+		tl, err := NewTargetList(names, opts)
+		if err != nil {
+			t.Fatal(err)
+		}
+		lb := &LoadBalancer{healthy: TargetList{}, all: tl}
+		for _, tg := range tl {
+			tg.stateConsumer = lb
+			tg.becameHealthy = make(chan bool)
+		}
+		for _, tg := range tl {
+			tg.HealthCheckCompleted(true)
+		}
+		counts := make([][]int, workers)
+		var wg sync.WaitGroup
+		start := make(chan struct{})
+		for w := 0; w < workers; w++ {
+			wg.Add(1)
+			counts[w] = make([]int, k)
+			go func(w int) {
+				defer wg.Done()
+				r, _ := http.NewRequest(http.MethodGet, "http://x/", nil)
+				<-start
+				for i := 0; i < per; i++ {
+					tg, req, err := lb.claimTarget(r)
+					if err != nil {
+						continue
+					}
+					for j, x := range tl {
+						if x == tg {
+							counts[w][j]++
+						}
+					}
+					tg.endInflightRequest(req)
+				}
+			}(w)
+		}
+		close(start)
+		wg.Wait()
+		total := make([]int, k)
+		for w := range counts {
+			for j, c := range counts[w] {
+				total[j] += c
+			}
+		}
+		out.emit(map[string]any{"round": round, "targets": k, "claims": workers * per, "per_target": total, "expected_each": workers * per / k})
 	}
 }
